@@ -215,7 +215,7 @@ func (o BufOp) coq() string {
 	case "from":
 		return "OFrom " + coqfmt.Z(o.Arg)
 	case "reset":
-		return "OReset " + coqfmt.Z(o.Arg)
+		return fmt.Sprintf("OReset %s %s", coqfmt.Z(o.Arg), coqfmt.Bool(o.OK))
 	case "next":
 		return "ONext"
 	case "first":
@@ -312,7 +312,9 @@ func runBuf(R *res.Result, capacity int64, ops []BufOp) Case {
 				}
 				ob = "BRecs " + coqfmt.List(xs)
 			case "reset":
+				store.failSave = !o.OK // ResetWithIndex persists the new index
 				h.ResetWithIndex(uint64(o.Arg))
+				store.failSave = false
 				ob = "BUnit"
 			case "next":
 				ob = "BIdx " + coqfmt.ZU(h.GetNextIndex())
@@ -419,7 +421,11 @@ func genBuf(r *rng.R) (int64, []BufOp) {
 				default:
 					i = int64(1000000 + r.Intn(1000000))
 				}
-				ops = append(ops, BufOp{K: "reset", Arg: i})
+				ok := !(faults && r.Pct(30))
+				ops = append(ops, BufOp{K: "reset", Arg: i, OK: ok})
+				if ok {
+					persisted = i
+				}
 				base, cnt = i, 0
 				flush = int64(syncer.VerifDefaultFlushCount)
 			}
@@ -988,8 +994,8 @@ func main() {
 			*nsync *= 4
 			*nbcast *= 3
 		}
-		// S8 replay: a reset is never persisted
-		emit(runBuf(R, 10, []BufOp{{K: "record", Arg: 1, OK: true}, {K: "reset", Arg: 1000000}, {K: "record", Arg: 2, OK: true},
+		// S8 regression (fixed by db81664): a reset is persisted
+		emit(runBuf(R, 10, []BufOp{{K: "record", Arg: 1, OK: true}, {K: "reset", Arg: 1000000, OK: true}, {K: "record", Arg: 2, OK: true},
 			{K: "next"}, {K: "restart", Arg: 10, OK: true}, {K: "next"}}))
 		for k := 0; k < *nsync; k++ {
 			emit(runSync(R, genSync(master.Fork(uint64(1000000+k)), k)))
@@ -1039,6 +1045,7 @@ func checkLag(R *res.Result, c Case) {
 			clean = clean && o.OK
 		case "reset":
 			reset = true
+			clean = clean && o.OK
 		case "next":
 			fmt.Sscanf(strings.TrimPrefix(c.Obs[i], "BIdx "), "%d", &before)
 		case "restart":
